@@ -72,6 +72,14 @@ class Sym:
                 return self.env[l[1]]
             raise NotUnderstood('use of `%s` before a value is known' % l[0])
         c = hir.callee(e) or ''
+        if k == 'Call' and c.endswith('mem::replace') and len(e['args']) == 2:
+            tl = hir.local(hir.strip(e['args'][0]))
+            if not tl or tl[1] not in self.env:
+                raise NotUnderstood('mem::replace on a non-local')
+            newv = self.val(e['args'][1])
+            old_ = self.env[tl[1]]
+            self.env[tl[1]] = newv
+            return old_
         if k in ('Call', 'MethodCall'):
             if c.endswith('One::one') or c.endswith('::one'):
                 return Poly.const(1)
@@ -127,6 +135,12 @@ class Sym:
             a, b = self.env[l[1]], self.val(s0['r'])
             self.env[l[1]] = a + b if s0['op'] == 'AddAssign' else (a - b if s0['op'] == 'SubAssign' else a * b)
             return None
+        if k == 'Call' and (hir.callee(s0) or '').endswith('mem::swap') and len(s0['args']) == 2:
+            a, b = hir.local(hir.strip(s0['args'][0])), hir.local(hir.strip(s0['args'][1]))
+            if not (a and b):
+                raise NotUnderstood('mem::swap on non-locals')
+            self.env[a[1]], self.env[b[1]] = self.env[b[1]], self.env[a[1]]
+            return None
         if k == 'If' and not s0.get('else'):
             st = [hir.strip(x) for x in hir.stmts_of(s0['then'])]
             if len(st) == 1 and st[0].get('k') == 'Break':
@@ -159,8 +173,14 @@ def analyse(f):
             lid = hir.local(hir.strip(s0['l']))[1]
             if lid not in assigned:
                 assigned.append(lid)
+        for c in hir.calls(s0):
+            if (hir.callee(c) or '').endswith(('mem::replace', 'mem::swap')):
+                for a in c['args'][:2 if (hir.callee(c) or '').endswith('swap') else 1]:
+                    tl = hir.local(hir.strip(a))
+                    if tl and tl[1] not in assigned:
+                        assigned.append(tl[1])
     if len(assigned) != 6:
-        return [('state', False, 'the search loop updates %d locals, the reference algorithm has 6 (p0, q0, p1, q1, n, d)' % len(assigned))]
+        raise NotUnderstood('the search loop updates %d locals, the reference algorithm has 6 (p0, q0, p1, q1, n, d)' % len(assigned))
     names = {}
     for n in hir.nodes(f['hir']):
         if n.get('k') == 'Let' and n['pat'].get('k') == 'Bind':
